@@ -108,7 +108,7 @@ class Build:
         mainc = exe + '.main.c'
         with open(mainc, 'w') as f:
             f.write('#include "rt.h"\nvoid %s(void);\nint main(void){ %s(); if (__exc_active) printf("UNCAUGHT-EXCEPTION ti=%%d\\n", __exc_ti); printf("DONE failed=%%d\\n", __rt_failed); return __rt_failed ? 1 : 0; }\n' % ((entry if noctor else 'run_' + entry), (entry if noctor else 'run_' + entry)))
-        rc, out, err, dt = sh(['gcc', '-O1', '-w', '-fwrapv', '-fno-strict-aliasing', '-DVERIF_C_NATIVE', '-Wl,--unresolved-symbols=ignore-all', '-I' + os.path.join(VERIF, 'rt'), unit['c'], os.path.join(VERIF, 'rt', 'rt.c'), mainc, '-o', exe], timeout=600)
+        rc, out, err, dt = sh(['gcc', '-O1', '-w', '-fwrapv', '-fno-strict-aliasing', '-DVERIF_C_NATIVE', '-DVERIF_FOOTPRINT' if unit['key'][5] else '-DVERIF_NO_FOOTPRINT', '-Wl,--unresolved-symbols=ignore-all', '-I' + os.path.join(VERIF, 'rt'), unit['c'], os.path.join(VERIF, 'rt', 'rt.c'), mainc, '-o', exe], timeout=600)
         if rc != 0:
             raise InternalError('gcc failed on generated C: ' + err[-3000:])
         return exe
